@@ -313,6 +313,7 @@ class PythonToIrCompiler:
         entry_block = self.builder.block
         test_block = self.builder.new_block()
         body_block = self.builder.new_block()
+        increment_block = self.builder.new_block()
         final_block = self.builder.new_block()
 
         self.emit(ir.Jump(test_block))
@@ -326,16 +327,22 @@ class PythonToIrCompiler:
         # Publish looping variable:
         self.local_map[statement.target.id] = Var(i_phi, False, ir.i64)
 
-        # Body:
-        self.enter_loop(test_block, final_block)
+        # Body. A continue statement must still advance the loop variable,
+        # so it jumps to the increment block:
+        self.enter_loop(increment_block, final_block)
         self.builder.set_block(body_block)
         self.gen_statement(statement.body)
         self.leave_loop()
 
+        # The body can consist of several blocks, the increment block is
+        # the only one that jumps back to the test:
+        self.builder.emit_jump(increment_block)
+
         # Increment loop variable:
+        self.builder.set_block(increment_block)
         one = self.builder.emit_const(1, ir.i64)
         i_inc = self.builder.emit_add(i_phi, one, ir.i64)
-        i_phi.set_incoming(body_block, i_inc)
+        i_phi.set_incoming(increment_block, i_inc)
 
         # Jump to start again:
         self.builder.emit_jump(test_block)
